@@ -25,6 +25,20 @@ def run(ctx: core.Ctx):
     results = b2check.run_b2(ctx, jobs, ["C07", "L5run"], label="api initialisation")
     b2check.l5_fold(ctx, results, "YncaApi.initialize()")
     T = core.tables()
+
+    def paused(rng, th):
+        out = []
+        for _ in range(4000 if th else 90):
+            spec = gen.api_init(rng, T)
+            if len(spec.get("present", [])) > 4:
+                spec["present"] = spec["present"][:4]
+                spec["device"]["avail"] = {k: v for k, v in spec["device"]["avail"].items() if k in spec["present"]}
+            t1 = round(rng.uniform(1.0, 9.0), 2)
+            spec["device"]["pause"] = [t1, round(t1 + rng.choice([2.2, 3.5, 5.0, 9.0]), 2)]       # busy for a while: no replies to what arrives meanwhile
+            spec["healthy"] = False                                                                # (a failing initialize() is C14's business)
+            out.append((spec, rng.randrange(10 ** 9), rng.choice([0, 0, 3])))
+        return out
+    b2check.run_b2(ctx, paused, ["C07"], label="receivers that stop answering for a few seconds in the middle of the start-up dialogue")
     b2check.run_b2(ctx, lambda rng, th: [(gen.api_reinit(rng, T), rng.randrange(10 ** 9), 0) for _ in range(3000 if th else 60)], ["C07"],
                    label="second initialize() on the same object after a failed first attempt, monitor only", accept=False)
     ctx.info["rule"] = ("the 12 recordings (harness's own recorded-device simulator) and synthetic devices: any subset of the optional subunits, random subsets of functions with valid values, multi-value answers, unsolicited updates during start-up, latencies below the time-outs, first probe swallowed; each under a seeded schedule, some with extra line-level preemptions; a case = one schedule; non-trivial = distinct (spec, seed)")
